@@ -188,12 +188,18 @@ pub struct WChecker<K: Kind> {
     pub world: World,
     pub cfg: SpaceCfg,
     pub rec: RecRef,
+    pub space: K::SP,
+    pub sballs: Vec<(K::S, f64)>,
     pub _k: PhantomData<K>,
 }
 impl<K: Kind> StateValidityChecker<K::S> for WChecker<K> {
     fn is_valid(&self, s: &K::S) -> bool {
         let v = K::enc(s);
-        let ans = self.world.valid(&self.cfg, &v);
+        let ans = self.world.valid(&self.cfg, &v)
+            && !self
+                .sballs
+                .iter()
+                .any(|(c, r)| self.space.distance(s, c) <= *r);
         let mut r = self.rec.borrow_mut();
         r.vlog.push((v, ans));
         if r.vlog.len() > r.query_cap && !r.cap_hit {
